@@ -56,4 +56,14 @@ PROPS = {
         "trusted": ["badger: a commit that returned with SyncWrites is durable; the OS and the disk honour fsync (SIGKILL cannot distinguish page cache from disk)", "kill points are the hook points (entry/exit of Fetch, Store, BatchStore, before/after Sign, request start/end); a kill inside badger's write is not exercised"],
         "assumptions": ["safe_ccfg: sync_writes and write_before_sign", "partial: see Properties/C03.v"],
     },
+    "C04": {
+        "relation": "Corr.CheckConc.check_conc (the real-time order of locker calls, store accesses and returns of concurrently issued requests, mapped to a schedule, is accepted by the model, ends with every request returned, gives the observed verdicts and reaches the observed store) plus the per-request protocol conformance (PreLock; Lock k1..kn; PostLock; reads and write inside; Unlock kn..k1) - tie C04_serializable / C04_realtime_order to the code",
+        "trusted": ["sync.Mutex, sync.Map and the Go memory model implement the locker-wide and per-key locks", "explored implementation schedules are steered samples (requests parked between read and write and between lock acquisitions)", "the model makes requests without lockable keys take the locker-wide mutex for one step (the code returns before PreLock); this only makes the model's threads wait more"],
+        "assumptions": ["partial: see Properties/C04.v"],
+    },
+    "C15": {
+        "relation": "Corr.CheckConc.check_conc and the per-request protocol conformance as for C04; completion of every round within a watchdog, including sustained load - tie C15_progress / C15_terminates to the code",
+        "trusted": ["sync.Mutex, sync.Map, the Go scheduler (fairness: an enabled goroutine eventually runs)"],
+        "assumptions": [],
+    },
 }
